@@ -4,7 +4,7 @@ The IC10 target machine — trusted specification (DESIGN §2.1).
 * generic in the register-name type `R` (physical registers, or virtual registers before allocation)
   and in the value type `V`; all value-level behaviour (arithmetic, comparisons, conversions) is in a
   `Sem V` record, so the meta-theory never looks inside an opcode;
-* `step` is factored as  *read operands → kind-specific, register-agnostic action → write back*;
+* `step` is factored as  *read operands → register-agnostic `exec` → write back*, so the register-renaming meta-theory (C04) never looks inside an opcode;
 * externally visible effects are appended to `trace` (newest first); device reads are answered by an
   environment that is an arbitrary function of the effects performed so far and the query.
 No imports: linked into `pvdrv`.
@@ -84,80 +84,112 @@ def writeDst (f : R → V) : Option R → V → R → V
   | none, _ => f
   | some d, v => upd f d v
 
-def fault (s : St R V) (why : String) : St R V :=
-  { s with trace := ⟨"fault:" ++ why, []⟩ :: s.trace, halted := true }
+/-- how an instruction leaves the program counter -/
+inductive Next where
+  | seq                       -- pc + 1
+  | jump (n : Nat)
+  | halt                      -- hcf
+  | fault (why : String)      -- the chip stops with an error
+  deriving Repr, DecidableEq
 
-/-- jump to the line number denoted by `v` (faults if it is not a line number) -/
-def jumpTo (sem : Sem V) (s : St R V) (v : V) : St R V :=
+/-- everything an instruction does, computed WITHOUT looking at register names: the value for its destination, new `sp` /
+    `ra`, one stack write, new effects (newest first), and where to go -/
+structure Out (V : Type) where
+  dst : Option V := none
+  sp : Option V := none
+  ra : Option V := none
+  mem : Option (Nat × V) := none
+  effs : List (Eff V) := []
+  next : Next := .seq
+
+/-- a value used as a jump target -/
+def target (sem : Sem V) (v : V) : Next :=
   match sem.toAddr v with
-  | some n => { s with pc := n }
-  | none => fault s "jump"
+  | some n => .jump n
+  | none => .fault "jump"
 
-/-- relative jump by the (possibly negative, given as two values) offset `v`: `pc + v` computed in `V` -/
-def jumpRel (sem : Sem V) (s : St R V) (v : V) : St R V :=
-  jumpTo sem s (sem.alu "add" [sem.ofNat s.pc, v])
+/-- **the register-agnostic action of every instruction kind**: a function of the operand values, the value of `sp`, the
+    current line, the stack memory and the effects so far -/
+def exec (sem : Sem V) (env : Env V) (k : Kind) (vals : List V) (spv : V) (pc : Nat) (mem : Nat → V)
+    (trace : List (Eff V)) : Out V :=
+  match k with
+  | .alu op => { dst := some (sem.alu op vals) }
+  | .load q => { dst := some (env trace q vals) }
+  | .store q => { effs := [⟨q, vals⟩] }
+  | .br c => if sem.cond c vals.dropLast then { next := target sem (vals.getLastD (sem.ofNat 0)) } else {}
+  | .brr c =>
+      if sem.cond c vals.dropLast then { next := target sem (sem.alu "add" [sem.ofNat pc, vals.getLastD (sem.ofNat 0)]) } else {}
+  | .brq q neg =>
+      if (sem.truthy (env trace q vals.dropLast)) != neg then { next := target sem (vals.getLastD (sem.ofNat 0)) } else {}
+  | .jmp => { next := target sem (vals.headD (sem.ofNat 0)) }
+  | .jal => { ra := some (sem.ofNat (pc + 1)), next := target sem (vals.headD (sem.ofNat 0)) }
+  | .push =>
+      match sem.toAddr spv with
+      | some a =>
+        if a < stackSize then { mem := some (a, vals.headD (sem.ofNat 0)), sp := some (sem.ofNat (a + 1)) }
+        else { next := .fault "stack-overflow" }
+      | none => { next := .fault "stack-pointer" }
+  | .pop =>
+      match sem.toAddr spv with
+      | some (a + 1) =>
+        if a < stackSize then { dst := some (mem a), sp := some (sem.ofNat a) } else { next := .fault "stack-overflow" }
+      | _ => { next := .fault "stack-underflow" }
+  | .peek =>
+      match sem.toAddr spv with
+      | some (a + 1) => if a < stackSize then { dst := some (mem a) } else { next := .fault "stack-overflow" }
+      | _ => { next := .fault "stack-underflow" }
+  | .poke =>
+      match vals with
+      | [a, v] =>
+        match sem.toAddr a with
+        | some n => if n < stackSize then { mem := some (n, v) } else { next := .fault "stack-address" }
+        | none => { next := .fault "stack-address" }
+      | _ => { next := .fault "operands" }
+  | .getdb =>
+      match vals with
+      | [a] =>
+        match sem.toAddr a with
+        | some n => if n < stackSize then { dst := some (mem n) } else { next := .fault "stack-address" }
+        | none => { next := .fault "stack-address" }
+      | _ => { next := .fault "operands" }
+  | .yield => { effs := [⟨"yield", []⟩] }
+  | .sleep => { effs := [⟨"sleep", vals⟩] }
+  | .hcf => { effs := [⟨"hcf", []⟩], next := .halt }
+  | .nop => {}
+  | .bad why => { next := .fault why }
 
+def updOpt (f : R → V) (r : R) : Option V → R → V
+  | none => f
+  | some v => upd f r v
+
+/-- write the outcome back: `sp`, `ra`, then the instruction's own destination -/
+def writeBack (f : R → V) (dst : Option R) (o : Out V) : R → V :=
+  let f1 := updOpt f Special.sp o.sp
+  let f2 := updOpt f1 Special.ra o.ra
+  match dst, o.dst with
+  | some d, some v => upd f2 d v
+  | _, _ => f2
+
+def applyOut (s : St R V) (dst : Option R) (o : Out V) : St R V :=
+  let regs := writeBack s.regs dst o
+  let mem := match o.mem with
+    | some (a, v) => updMem s.mem a v
+    | none => s.mem
+  let trace := o.effs ++ s.trace
+  match o.next with
+  | .seq => { regs := regs, mem := mem, pc := s.pc + 1, trace := trace, halted := false }
+  | .jump n => { regs := regs, mem := mem, pc := n, trace := trace, halted := false }
+  | .halt => { regs := regs, mem := mem, pc := s.pc, trace := trace, halted := true }
+  | .fault why => { regs := regs, mem := mem, pc := s.pc, trace := ⟨"fault:" ++ why, []⟩ :: trace, halted := true }
+
+/-- one step: *read the operands → register-agnostic `exec` → write back* -/
 def step (sem : Sem V) (env : Env V) (P : List (Instr R V)) (s : St R V) : St R V :=
   if s.halted then s else
   match P[s.pc]? with
   | none => { s with halted := true }
   | some i =>
     let vals := i.args.map (Opnd.eval s.regs)
-    match i.kind with
-    | .alu op => { s with regs := writeDst s.regs i.dst (sem.alu op vals), pc := s.pc + 1 }
-    | .load q => { s with regs := writeDst s.regs i.dst (env s.trace q vals), pc := s.pc + 1 }
-    | .store q => { s with trace := ⟨q, vals⟩ :: s.trace, pc := s.pc + 1 }
-    | .br c =>
-        if sem.cond c vals.dropLast then jumpTo sem s (vals.getLastD (sem.ofNat 0))
-        else { s with pc := s.pc + 1 }
-    | .brr c =>
-        if sem.cond c vals.dropLast then jumpRel sem s (vals.getLastD (sem.ofNat 0))
-        else { s with pc := s.pc + 1 }
-    | .brq q neg =>
-        if (sem.truthy (env s.trace q vals.dropLast)) != neg then jumpTo sem s (vals.getLastD (sem.ofNat 0))
-        else { s with pc := s.pc + 1 }
-    | .jmp => jumpTo sem s (vals.headD (sem.ofNat 0))
-    | .jal => jumpTo sem { s with regs := upd s.regs Special.ra (sem.ofNat (s.pc + 1)) } (vals.headD (sem.ofNat 0))
-    | .push =>
-        match sem.toAddr (s.regs Special.sp) with
-        | some a =>
-          if a < stackSize then
-            { s with mem := updMem s.mem a (vals.headD (sem.ofNat 0)),
-                     regs := upd s.regs Special.sp (sem.ofNat (a + 1)), pc := s.pc + 1 }
-          else fault s "stack-overflow"
-        | none => fault s "stack-pointer"
-    | .pop =>
-        match sem.toAddr (s.regs Special.sp) with
-        | some (a + 1) =>
-          if a < stackSize then
-            { s with regs := writeDst (upd s.regs Special.sp (sem.ofNat a)) i.dst (s.mem a), pc := s.pc + 1 }
-          else fault s "stack-overflow"
-        | _ => fault s "stack-underflow"
-    | .peek =>
-        match sem.toAddr (s.regs Special.sp) with
-        | some (a + 1) =>
-          if a < stackSize then { s with regs := writeDst s.regs i.dst (s.mem a), pc := s.pc + 1 }
-          else fault s "stack-overflow"
-        | _ => fault s "stack-underflow"
-    | .poke =>
-        match vals with
-        | [a, v] =>
-          match sem.toAddr a with
-          | some n => if n < stackSize then { s with mem := updMem s.mem n v, pc := s.pc + 1 } else fault s "stack-address"
-          | none => fault s "stack-address"
-        | _ => fault s "operands"
-    | .getdb =>
-        match vals with
-        | [a] =>
-          match sem.toAddr a with
-          | some n => if n < stackSize then { s with regs := writeDst s.regs i.dst (s.mem n), pc := s.pc + 1 } else fault s "stack-address"
-          | none => fault s "stack-address"
-        | _ => fault s "operands"
-    | .yield => { s with trace := ⟨"yield", []⟩ :: s.trace, pc := s.pc + 1 }
-    | .sleep => { s with trace := ⟨"sleep", vals⟩ :: s.trace, pc := s.pc + 1 }
-    | .hcf => { s with trace := ⟨"hcf", []⟩ :: s.trace, halted := true }
-    | .nop => { s with pc := s.pc + 1 }
-    | .bad why => fault s why
+    applyOut s i.dst (exec sem env i.kind vals (s.regs Special.sp) s.pc s.mem s.trace)
 
 def run (sem : Sem V) (env : Env V) (P : List (Instr R V)) : Nat → St R V → St R V
   | 0, s => s
